@@ -578,6 +578,11 @@ class LruRun:
                     self.flags.add("evict_waited")
             else:
                 self.flags.add("replacement_without_expiry")
+        # ---- a call aborted while entering the lock leaves a placeholder that no miss has counted
+        if (code == 7 and self.stage.get(actor) == "entry") or (finished and rk == 2 and call.get("stage_at_end") == "lock"):
+            if k in after and after[k][1][1] is not None and id(after[k][1][1]) not in self.counted:
+                self.fu = True
+                self.flags.add("aborted_at_lock_entry")
         # ---- a computation ended without a result and left its counted placeholder behind
         if finished and call["exec"] is not None and rk in (2, 3):
             if k in after and after[k][1][1] is not None and id(after[k][1][1]) in self.counted:
@@ -670,7 +675,8 @@ class LruRun:
         currsize >= maxsize; if currsize equals the number of counted items (no phantom count F30, no dead counted
         placeholder F41), maxsize - 1 other counted items plus the evictor's key were all installed or refreshed after
         it.  Failures, cancellations and cache_clear() are therefore NOT excluded: when they inflate the count the hit
-        is attributed to F30 / F41 from the observed state, an in-flight / waited eviction to F3 / F8."""
+        is attributed to F30 / F41 from the observed state, a leftover placeholder of an aborted call (its later
+        computation keeps the stale position) to F31, an in-flight / waited eviction to F3 / F8."""
         k = call["key"]
         dobj = call["dictobj"]
         if self.effmax == 0 or dobj is None:
@@ -704,6 +710,8 @@ class LruRun:
                 cause = "F30"
             if cause is None and self.fd:
                 cause = "F41"
+            if cause is None and self.fu:
+                cause = "F31"
             if cause is None and self.fi:
                 cause = self.evicted_any_inflight
             if cause is None and self.fw:
@@ -1217,7 +1225,7 @@ def check(tier: str) -> int:
                                   "impl_step": r.step_obs[k] if k < len(r.step_obs) else None,
                                   "model_step": ms[k] if k < len(ms) else None})
 
-    sample_n = 50 if tier == "quick" else 400
+    sample_n = 40 if tier == "quick" else 400
     idx = list(range(n_corpus)) + rng.sample(range(n_corpus, len(cases)), min(sample_n, len(cases) - n_corpus))
     vm_ok, vm_log = core.coq_eval_cases("c20", "Lru", [cases[i] for i in idx], [expected[i] for i in idx])
 
